@@ -26,6 +26,7 @@ LawDecodeTotal == DecodeTotal(cd)
 LawImportExport == ImportExport(cd)
 LawSizes == SizesOK(cd)
 LawStepBound == StepBound(cd)
+LawAppendOnly == AppendOnly(cd)
 \* from_binary followed by into_binary is the identity on every word sequence (C04)
 LawBinary == \A d \in WordSeqs(W, MaxInit) :
     LET b == FromBinary(d) IN IsBinary(b) /\ ExportBinary(b) = d /\ NumValidBits(b) = W * Len(d) /\ Inv(b)
